@@ -237,6 +237,7 @@ fn real_main() {
         "child-c20" => stress::child_c20(args[2].parse().unwrap(), args[3].parse().unwrap(), args[4].parse().unwrap()),
         "child-shape" => stress::child_shape(args[2].parse().unwrap()),
         "child-free" => stress::child_free(args[2].parse().unwrap(), args[3].parse().unwrap()),
+        "child-listfree" => stress::child_listfree(args[2].parse().unwrap(), args[3].parse().unwrap()),
         "rc-pairs" => {
             rc_setup();
             // --a / --b : comma separated call names (empty = all); --grace 0|1
